@@ -733,7 +733,7 @@ namespace mustache {
     void EntityManager::destroy(Entity entity) {
         if (isLocked()) {
             getTemporalStorage().destroy(entity);
-        } else {
+        } else if (isEntityValid(entity)) { // a handle nobody holds yet must not kill the entity that gets it later
             marked_for_delete_.insert(entity);
         }
     }
